@@ -7,10 +7,20 @@
         repository carries a lossy serde attribute outside the documented exceptions (re-translated
         from the Rust sources on every run), skipped fields come back as their defaults, enum
         variants keep their index exactly when no skipped variant precedes them;
-    (C) per run, in Corr.v / the harness: the model of (A) equals bincode's bytes, the model of (B)
-        equals the trees serde_derive's impls emit, and restored values behave identically. *)
+    (B') every serde attribute has a place in the model: what the generated impls write and read back under
+        skip / skip_serializing / skip_deserializing / skip_serializing_if / default / rename / alias /
+        deny_unknown_fields / transparent / tag / content / untagged, POSITIONALLY (bincode) and BY KEY
+        (serde_json), with the exact condition under which a value survives; attributes that hand control
+        to user code (with, from, into, ...) or that the translator does not know are opaque and break
+        [all_declared_lossless];
+    (A') the self-describing format: serde_json's rendering of the data model and its reading back by
+        member name, lossless on every value JSON can express ([json_typed]);
+    (C) per run, in Corr.v / the harness: the model of (A) equals bincode's bytes, the model of (A') equals
+        serde_json's text, the model of (B) / (B') equals the trees serde_derive's impls emit (for the
+        repository's types and for the harness' attribute zoo), and restored values behave identically. *)
 From Coq Require Import List String NArith ZArith Bool.
-From LinfaVerif Require Import C19.Model gen.C19_types C19.Proofs.
+From Coq Require Import Permutation.
+From LinfaVerif Require Import C19.Model C19.Json gen.C19_types C19.Proofs C19.AttrProofs C19.JsonProofs.
 Import ListNotations.
 
 (* ---------------------------------------------------------------- (A) the wire format *)
@@ -45,8 +55,11 @@ Proof. exact value_eqb_eq. Qed.
 (* ---------------------------------------------------------------- (B) the deriving types *)
 
 (** no deriving type of the repository, the two documented exceptions apart, carries a serde attribute
-    that drops or rewrites data (skip*, default, with, from/into, asymmetric rename, ...), and each
-    derives both directions *)
+    that can drop or rewrite data in a positional or in a keyed format (skip*, skip_serializing_if, flatten,
+    an asymmetric rename without alias, internal / adjacent / untagged enums, with, from / into, anything the
+    translator does not know), every name written is a name read and no two members share one, and each
+    type derives both directions. `default` without `skip*`, `bound`, `rename` / `rename_all` / `alias`,
+    `transparent`, `deny_unknown_fields`, `crate` are lossless and allowed. *)
 Theorem all_declared_lossless : forallb lossless_decl (minus_known declared) = true.
 Proof. exact all_declared_lossless_c. Qed.
 
@@ -86,7 +99,7 @@ Theorem middle_skip_refuted : exists (vs : list variant_decl) (p : nat) (v : var
   nth_error vs p = Some v /\ skips_ser (vd_attrs v) = false /\ skips_de (vd_attrs v) = false /\
   ser_variant vs p = Some i /\ de_variant vs i <> Some p.
 Proof.
-  exists ex_error_variants, 4%nat, (nth 4 ex_error_variants (mkV "" "" KUnit [] [])), 4%N.
+  exists ex_error_variants, 4%nat, (nth 4 ex_error_variants (mkV "" "" [] KUnit [] [])), 4%N.
   vm_compute. repeat split; try reflexivity. discriminate.
 Qed.
 
@@ -124,3 +137,151 @@ Theorem declared_enum_variant_roundtrip :
   In d (minus_known declared) -> td_body d = BEnum vs -> nth_error vs p = Some v ->
   exists i, ser_variant vs p = Some i /\ de_variant vs i = Some p.
 Proof. exact declared_enum_roundtrip. Qed.
+
+(* ---------------------------------------------------------------- (B') every attribute has a case *)
+
+(** every attribute name the translator can emit (serde_derive's own list and the translator's synthetic
+    names, regenerated with the declarations) is classified by the model *)
+Theorem attribute_table_complete : forallb attr_known parser_attr_names = true.
+Proof. exact attribute_table_complete_c. Qed.
+
+(** ... every attribute that occurs in the repository or in the harness' zoo is one of those names, the table
+    has one entry per name and no kind without a name *)
+Theorem declared_attributes_in_table :
+  forallb (fun d => forallb (fun n => mem n parser_attr_names) (decl_attr_names d)) (declared ++ zoo_declared) = true
+  /\ nodupb (map fst attr_table) = true /\ (forall k, kind_named k = true).
+Proof. exact (conj declared_attrs_in_table_c (conj attr_table_unambiguous_c attr_table_onto)). Qed.
+
+(** POSITIONAL (bincode): a struct comes back exactly when every field is written iff it is read (skip pairs
+    both, skip_serializing / skip_deserializing / a firing skip_serializing_if break it) and the fields that
+    are not read held their fill-in value (Default::default() or the `default = "path"` function) *)
+Theorem positional_roundtrip_iff : forall (fds : list field_decl) (ins : list fin),
+  wire_nodup fds = true -> List.length ins = List.length fds ->
+  (de_pos fds ins (ser_pos fds ins) = Some (map in_val ins) <->
+   aligned fds ins = true /\ unread_hold_defaults fds ins).
+Proof. exact pos_roundtrip_iff_l. Qed.
+
+(** ... an aligned layout gives the fill-in values back for the unread fields, a misaligned one is never read
+    back as the original *)
+Theorem positional_result : forall (fds : list field_decl) (ins : list fin),
+  wire_nodup fds = true -> List.length ins = List.length fds ->
+  de_pos fds ins (ser_pos fds ins) = if aligned fds ins then Some (merge_pos fds ins) else None.
+Proof.
+  intros fds ins Hn Hl. destruct (aligned fds ins) eqn:E;
+    [exact (de_pos_aligned fds ins E) | exact (de_pos_misaligned fds ins Hn Hl E)].
+Qed.
+
+(** BY KEY (serde_json): reading the object the serialiser wrote gives, field by field: the value when it was
+    written under a name the field reads; else the default when there is one, `None` for an option, an
+    error otherwise; unread fields get their fill-in value; under deny_unknown_fields a member nobody reads
+    (skip_deserializing, asymmetric rename) is an error *)
+Theorem keyed_decode_of_encode : forall (deny cd : bool) (fds : list field_decl) (ins : list fin),
+  names_ok fds = true -> List.length ins = List.length fds ->
+  de_key deny cd fds ins (ser_pos fds ins) = key_result deny cd fds ins.
+Proof. exact de_key_ser_key_l. Qed.
+
+Theorem keyed_roundtrip_iff : forall (deny cd : bool) (fds : list field_decl) (ins : list fin),
+  names_ok fds = true -> List.length ins = List.length fds ->
+  (de_key deny cd fds ins (ser_pos fds ins) = Some (map in_val ins) <->
+   (deny = true -> any2 f_stray fds ins = false) /\ key_fields_ok cd fds ins).
+Proof.
+  intros deny cd fds ins Hn Hl. rewrite (de_key_ser_key_l deny cd fds ins Hn Hl).
+  exact (key_roundtrip_iff_l deny cd fds ins Hl).
+Qed.
+
+(** reading by key does not depend on the order of the members and ignores members nobody reads *)
+Theorem keyed_order_irrelevant : forall (deny cd : bool) fds ins (obj obj' : list (string * value)),
+  Permutation obj obj' -> de_key deny cd fds ins obj = de_key deny cd fds ins obj'.
+Proof. exact de_key_perm_l. Qed.
+
+Theorem keyed_unknown_member_ignored : forall (cd : bool) fds ins (obj : list (string * value)) k v,
+  known_key fds k = false -> de_key false cd fds ins ((k, v) :: obj) = de_key false cd fds ins obj.
+Proof. exact de_key_unknown_l. Qed.
+
+(** a declaration whose fields are statically lossless returns every value in both disciplines (the meaning of
+    the one admitted value-dependent idiom, skip_serializing_if = "Option::is_none", is a hypothesis) *)
+Theorem static_fields_roundtrip : forall (deny cd : bool) (fds : list field_decl) (ins : list fin),
+  List.length ins = List.length fds ->
+  forallb field_pos_static fds = true -> forallb (field_key_static cd) fds = true -> names_ok fds = true ->
+  sif_idiom_sound cd fds ins ->
+  de_pos fds ins (ser_pos fds ins) = Some (map in_val ins)
+  /\ de_key deny cd fds ins (ser_pos fds ins) = Some (map in_val ins).
+Proof.
+  intros deny cd fds ins Hl Hp Hk Hn Hs.
+  exact (conj (static_pos_roundtrip fds ins Hl Hp) (static_key_roundtrip deny cd fds ins Hl Hk Hn Hs)).
+Qed.
+
+(** `flatten` (refused positionally: [pos_serializable]): by key, members spliced in from a flattened struct
+    whose names no ordinary field reads leave the ordinary fields as they were, and what is collected for the
+    flattened struct is exactly what it wrote, from which it picks its members back *)
+Theorem flatten_by_key : forall (cd : bool) (fds : list field_decl) (ins : list fin) (es : list (string * value)),
+  names_ok fds = true -> List.length ins = List.length fds -> any2 f_stray fds ins = false ->
+  forallb (fun kv : string * value => negb (known_key fds (fst kv))) es = true -> nodup_fst es = true ->
+  de_key false cd fds ins (ser_pos fds ins ++ es) = de_key false cd fds ins (ser_pos fds ins)
+  /\ collect fds (ser_pos fds ins ++ es) = es
+  /\ pick_entries (collect fds (ser_pos fds ins ++ es)) es = Some es.
+Proof.
+  intros cd fds ins es Hn Hl Hs He Hd. rewrite (collect_flat fds ins es Hn Hl Hs He).
+  exact (conj (de_key_unknown_app cd fds ins _ es He) (conj eq_refl (pick_entries_own es Hd))).
+Qed.
+
+(** variants by name (external, internal and adjacent tagging in a keyed format) and untagged variants are both
+    "the first live variant that answers": a live variant comes back iff no live variant before it answers *)
+Theorem first_answering_variant_iff : forall (P : variant_decl -> bool) (vs : list variant_decl) (p : nat) (v : variant_decl),
+  nth_error vs p = Some v -> skips_de (vd_attrs v) = false -> P v = true ->
+  (first_live P vs 0 = Some p <->
+   forall j w, (j < p)%nat -> nth_error vs j = Some w -> skips_de (vd_attrs w) = false -> P w = false).
+Proof. exact first_live_iff. Qed.
+
+(** by name a skipped variant in the middle is harmless (contrast [middle_skip_refuted]) *)
+Theorem keyed_variant_roundtrip : forall (vs : list variant_decl) (p : nat) (v : variant_decl),
+  vnames_ok vs = true -> nth_error vs p = Some v ->
+  skips_ser (vd_attrs v) = false -> skips_de (vd_attrs v) = false -> mem (vd_wire v) (vd_de v) = true ->
+  exists n, ser_variant_key vs p = Some n /\ de_variant_key vs n = Some p.
+Proof. exact keyed_variant_roundtrip_l. Qed.
+
+(** `transparent` hands the single written field through: same tree, hence same bytes and same JSON *)
+Theorem transparent_passes_through : forall d k fds ins n v,
+  c_transparent d = true -> ser_pos fds ins = [(n, v)] -> ser_container d k fds ins = v.
+Proof. exact transparent_wire_l. Qed.
+
+(** every struct declared in the repository (exceptions apart), every assignment of values, fill-in values and
+    predicate outcomes to its fields: the fields come back positionally and by key *)
+Theorem declared_struct_attr_roundtrip : forall (d : type_decl) (k : skind) (fds : list field_decl) (ins : list fin),
+  In d (minus_known declared) -> td_body d = BStruct k fds -> List.length ins = List.length fds ->
+  sif_idiom_sound (c_default d) fds ins ->
+  de_pos fds ins (ser_pos fds ins) = Some (map in_val ins)
+  /\ de_key (c_deny d) (c_default d) fds ins (ser_pos fds ins) = Some (map in_val ins).
+Proof. exact declared_struct_attr_roundtrip_l. Qed.
+
+(** every enum declared in the repository (exceptions apart), every variant: the name written selects it *)
+Theorem declared_enum_key_roundtrip : forall (d : type_decl) (vs : list variant_decl) (p : nat) (v : variant_decl),
+  In d (minus_known declared) -> td_body d = BEnum vs -> nth_error vs p = Some v ->
+  exists n, ser_variant_key vs p = Some n /\ de_variant_key vs n = Some p.
+Proof. exact declared_enum_key_roundtrip_l. Qed.
+
+(* ---------------------------------------------------------------- (A') the self-describing format *)
+
+(** serde_json's rendering of a value that JSON can express (finite floats, no Some(x) that renders as null,
+    string / integer map keys, distinct member names) is read back as that value - under exact number tokens;
+    serde_json's own number parser (built without float_roundtrip) adds the ulp slack measured per run *)
+Theorem json_decode_encode : forall (v : value) (s : shape),
+  json_typed v s = true -> of_json s (to_json v) = Some v.
+Proof. exact json_decode_encode_all. Qed.
+
+(** members are found by name: their order does not matter ... *)
+Theorem json_member_order_irrelevant : forall n ss (obj obj' : list (string * json)),
+  Permutation obj obj' ->
+  of_json (SStruct KNamed n ss) (JObj obj) = of_json (SStruct KNamed n ss) (JObj obj').
+Proof. exact json_struct_perm_l. Qed.
+
+(** ... a member that is not a field is ignored ... *)
+Theorem json_unknown_member_ignored : forall n ss (obj : list (string * json)) k x,
+  mem k (map fst ss) = false ->
+  of_json (SStruct KNamed n ss) (JObj ((k, x) :: obj)) = of_json (SStruct KNamed n ss) (JObj obj).
+Proof. exact json_struct_unknown_l. Qed.
+
+(** ... and a missing member is `None` for an option and an error for anything else *)
+Theorem json_missing_member : forall n f s,
+  of_json (SStruct KNamed n [(f, s)]) (JObj []) = if is_opt s then Some (VStruct KNamed n [(f, VNone)]) else None.
+Proof. exact json_struct_missing_l. Qed.
